@@ -266,7 +266,7 @@ seq(prop="C10", lean_targets=["TransportVerif.Props.C10"], pkg="packetio", run="
          "every step. non-trivial = a deadline expires while nobody reads or while a read is blocked, is reset after expiry, a read starts after expiry (with or without data queued); "
          "distinct = hash of kind + ops text",
     design_ref="DESIGN.md 7.10", technique="Lean 4 proof: corollaries of the Deadline theorem (C09) for a reader that checks the deadline signal first and then waits for data or the signal; the same history generator runs against all five connection types under a virtual clock",
-    level_text="Theorems (Props/C10.lean) about a reader that checks the deadline signal first and then waits for data or the signal, on top of the Deadline model of C09, for every history of SetReadDeadline(zero|past|future), arrivals, reads and idle periods: signal_iff_passed (the signal is raised exactly when a non-zero deadline is in force and has passed), timeout_only_if_passed, blocked_read_released_at_expiry, timeout_persists (every read keeps failing, also with data queued, until the deadline is set again), later_or_zero_deadline_reads_again. The same history generator runs, under a virtual clock, against all five connection types (packetio.Buffer, dpipe, Bridge endpoint, udp listener Conn, vnet UDPConn) and every step's observation (blocked / data / timeout) is compared with the model and the spec. The pinned vnet socket violated it (stale timer tick: early timeout after extending an unobserved expiry; reads blocking forever after expiry); repaired by a fix: commit (uses deadline.Deadline).", level_note="Trusted: Lean kernel + standard axioms; vtime and the time rewrite of the deadline package and vnet/conn.go; one Read in flight at a time; timer callbacks settled before each observation (their interleavings are C09's subject); udp.Conn is fed through listener.dispatchMsg rather than the kernel socket; Bridge endpoints are not closed.",
+    level_text="Theorems (Props/C10.lean) about a reader that checks the deadline signal first and then waits for data or the signal, on top of the Deadline model of C09, for every history of SetReadDeadline(zero|past|future), arrivals, reads and idle periods: signal_iff_passed (the signal is raised exactly when a non-zero deadline is in force and has passed), timeout_only_if_passed, blocked_read_released_at_expiry, timeout_persists (every read keeps failing, also with data queued, until the deadline is set again), later_or_zero_deadline_reads_again, close_keeps_deadline, closed_never_blocks (Close keeps buffered data readable, then end of file; it never causes or clears a timeout). The same history generator runs, under a virtual clock, against all five connection types (packetio.Buffer, dpipe, Bridge endpoint, udp listener Conn, vnet UDPConn) and every step's observation (blocked / data / timeout) is compared with the model and the spec. The pinned vnet socket violated it (stale timer tick: early timeout after extending an unobserved expiry; reads blocking forever after expiry); repaired by a fix: commit (uses deadline.Deadline).", level_note="Trusted: Lean kernel + standard axioms; vtime and the time rewrite of the deadline package and vnet/conn.go; one Read in flight at a time; timer callbacks settled before each observation (their interleavings are C09's subject); udp.Conn is fed through listener.dispatchMsg rather than the kernel socket; Bridge endpoints are not closed.",
     trusted=LEAN_TB + ["Model/ReadDeadline.lean (a reader on top of Model/Deadline.lean) validated against all five connection types under the virtual clock (deadline package and vnet/conn.go rewritten to vtime)",
                        "udp.Conn is fed through listener.dispatchMsg (the read loop's own path) instead of the kernel socket"],
     assumptions=["one Read in flight at a time; timer callbacks are settled before each observation (their interleavings are C09's subject)"])
@@ -292,14 +292,14 @@ def _yield_k(rel, funcs, kinds):
 seq(prop="C12", lean_targets=["TransportVerif.Props.C12"], pkg="udp", run="^TestVerifLife$", component="life",
     files=["life_h_test.go"], quick_n=400, thorough_n=6000, search_n=2000,
     variants=[dict(overlay_fn=_yield_k("udp/conn.go", ["Accept", "Close", "getConn"], "select,lock,wait,wgadd"))],
-    nontrivial=["accept-takes-after-close-began", "discards-unaccepted", "socket-closes", "waits-for-readloop", "wakes-acceptors", "arrival-creates", "accept-parks"],
+    nontrivial=["accept-takes-after-close-began", "discards-unaccepted", "socket-closes", "waits-for-readloop", "wakes-acceptors", "arrival-creates", "accept-parks", "arrival-after-close-began", "aclose-begins"],
     rule="controlled schedules on a real listener (loopback socket): 0..2 connections already accepted, 0..2 waiting in the backlog, then 0..2 Accept callers, a listener Close, Close of accepted "
-         "connections and datagram arrivals from new remotes interleaved at the yield points of Accept (select), listener Close and Conn.Close (lock, wait); after every grant the socket state, "
+         "connections, Close of the connections the Accept callers of the phase return (role K), and datagram arrivals from new remotes (in one step, or in two: stopped inside getConn where it counts the connection) interleaved at the yield points of Accept (select), listener Close and Conn.Close (lock, wait); after every grant the socket state, "
          "backlog length, table size and every goroutine's position are compared with the model; at quiescence the implementation's own final state is judged: socket closed iff the listener and "
          "every connection returned by Accept are closed. non-trivial = Accept takes a connection after Close began, Close discards unaccepted connections, the step that closes the socket, a Close "
          "waiting for the read loop, Close waking blocked Accepts, arrivals; distinct = hash of the schedule",
     design_ref="DESIGN.md 7.12", technique="Lean 4 proof: step invariant of the reference-count transition system (socket closed iff listener and all handed-out connections closed, counter never negative); schedules replayed on the real listener under the controlled scheduler",
-    level_text="Theorems (Props/C12.lean) about the reference-count transition system of the listener for every scenario (connections already accepted, connections waiting in the backlog, any number of Accept callers, a listener Close, Closes of accepted connections, datagram arrivals) and EVERY interleaving at the yield points of Accept, listener Close and Conn.Close: count_exact (the count that decides when the socket is closed = the listener's reference + queued connections + connections handed to clients whose Close has not started; no subtraction underflows), socket_closed_iff (closed exactly when all three are zero: never while the listener or a connection returned by Accept is open, and as soon as the last is closed), accept_fails_after_close, unaccepted_discarded, no_new_conn_after_close, no_close_stuck (at quiescence nobody is blocked waiting for the read loop). The pinned tree violated it (Accept had taken the connection but not yet counted it when Close ran: the socket was closed under a connection returned with nil error; witness schedule in corpus/C12, replayed on a real listener); repaired by a fix: commit (a connection is counted from the moment it is queued). Tie: udp/conn.go gets yield points by the AST pass; schedules run on a real listener on a loopback socket and socket state, backlog length, table size and every goroutine's position are compared with the model after every grant; the implementation's final state is judged.", level_note="Trusted: Lean kernel + standard axioms; the read loop and the closer goroutine are unmanaged (their reaction to the count reaching zero is observed at quiescence); Go's select among two ready cases is fed to the model as observed (grantErr); at most one Close caller per object in the concurrent phase (idempotence exercised sequentially); port re-bindability and absence of leftover goroutines are not part of the theorems; the kernel socket is only asked whether it is closed.",
+    level_text="Theorems (Props/C12.lean) about the reference-count transition system of the listener for every scenario (connections already accepted, connections waiting in the backlog, any number of Accept callers, a listener Close, Closes of accepted connections, datagram arrivals) and EVERY interleaving at the yield points of Accept, listener Close and Conn.Close: count_exact (the count that decides when the socket is closed = the listener's reference + queued connections + connections handed to clients whose Close has not started; no subtraction underflows), socket_closed_iff (closed exactly when all three are zero: never while the listener or a connection returned by Accept is open, and as soon as the last is closed), accept_fails_after_close, unaccepted_discarded, no_new_conn_after_close, inflight_arrival_discarded (an arrival that had passed getConn's admission check when Close began is queued and then discarded by the drain), lock_steps_wait, no_close_stuck (at quiescence nobody is blocked waiting for the read loop). The pinned tree violated it (Accept had taken the connection but not yet counted it when Close ran: the socket was closed under a connection returned with nil error; witness schedule in corpus/C12, replayed on a real listener); repaired by a fix: commit (a connection is counted from the moment it is queued). Tie: udp/conn.go gets yield points by the AST pass; schedules run on a real listener on a loopback socket and socket state, backlog length, table size and every goroutine's position are compared with the model after every grant; the implementation's final state is judged.", level_note="Trusted: Lean kernel + standard axioms; the read loop and the closer goroutine are unmanaged (their reaction to the count reaching zero is observed at quiescence); Go's select among two ready cases is fed to the model as observed (grantErr); at most one Close caller per object in the concurrent phase (idempotence exercised sequentially); port re-bindability and absence of leftover goroutines are not part of the theorems; the kernel socket is only asked whether it is closed.",
     trusted=LEAN_TB + ["hand-written transition system Model/ListenerLife.lean tied to udp/conn.go by controlled-schedule runs on a real listener compared after every grant",
                        "the read loop and the closer goroutine are unmanaged: their reaction to the count reaching zero is observed at quiescence; the kernel socket is only asked whether it is closed",
                        "vrewrite, cosched"],
@@ -325,7 +325,7 @@ seq(prop="C17", lean_targets=["TransportVerif.Props.C17"], pkg="netctx", run="^T
                        "the scripted wrapped connection harness/shim/ctxh (deadline-aware blocking call, byte stream with position-dependent content)", "vrewrite, cosched"],
     assumptions=["SetReadDeadline/SetWriteDeadline of the wrapped connection do not fail", "operations of one direction are consecutive (the wrapper's mutex); Close is not interleaved"])
 
-seq(prop="C01", lean_targets=["TransportVerif.Props.C01", "TransportVerif.Props.C01Reply"], pkg="vnet", run="^TestVerifE2E$", component="vnet", always_judge=("end", "read", "conc"),
+seq(prop="C01", lean_targets=["TransportVerif.Props.C01", "TransportVerif.Props.C01Reply", "TransportVerif.Props.C01NatStable"], pkg="vnet", run="^TestVerifE2E$", component="vnet", always_judge=("end", "read", "conc"),
     files=["e2e_h_test.go", "nat_h_test.go"], quick_n=3000, thorough_n=100000, search_n=3000,
     nontrivial=["read-translated-source", "read-translated-dest", "read-long-path", "drop-nat-filtered", "drop-queue-full", "drop-no-socket", "loopback", "route-several", "nat-allocates", "concurrent"],
     rule="generated topologies of real routers and hosts (root router, 0..3 LAN routers nested up to depth 3 with NAPT in all 9 mapping x filtering behaviours, several lifetimes, the default NAT, "
